@@ -22,7 +22,7 @@ Star == V("star", "*", 0, 0, <<42>>)
 Pats == << V("pat", "x*", 0, 0, <<120,42>>), V("pat", "*x", 0, 0, <<42,120>>), V("pat", "x?y", 0, 0, <<120,63,121>>),
            V("pat", "?", 0, 0, <<63>>), V("pat", "*", 0, 0, <<42>>), V("pat", "x*y*", 0, 0, <<120,42,121,42>>),
            V("pat", "a_b*", 0, 0, <<97,95,98,42>>), V("pat", "x.y*", 0, 0, <<120,46,121,42>>),
-           V("pat", "x??y", 0, 0, <<120,63,63,121>>), V("pat", "?x?", 0, 0, <<63,120,63>>), V("pat", "*x*y*", 0, 0, <<42,120,42,121,42>>) >>
+           V("pat", "x??y", 0, 0, <<120,63,63,121>>), V("pat", "x\\\\*", 0, 0, <<120,92,92,42>>), V("pat", "a\\*b*", 0, 0, <<97,92,42,98,42>>), V("pat", "?x?", 0, 0, <<63,120,63>>), V("pat", "*x*y*", 0, 0, <<42,120,42,121,42>>) >>
 Pool(ty) == CASE ty = "int" -> Ints [] ty = "float" -> Decs [] ty = "str" -> Strs
 Small(s) == IF Tier = "quick" THEN SubSeq(s, 1, IF Len(s) > 5 THEN 5 ELSE Len(s)) ELSE s
 
@@ -32,11 +32,16 @@ NumProbes == << -4000000, -3000000, -2999000, -1500000, -1499000, -1000000, 0, 1
                 13000000, 99000000, 100000000, 101000000, 234567000, 234567891, 234568000, -100000000, -99999999, -99999000 >>
 StrProbes == << <<120,39,39,121>>, <<120,39,121>>, <<>>, <<65>>, <<66>>, <<97>>, <<97,32>>, <<97,32,98>>, <<97,44,98>>, <<97,97>>, <<97,98>>, <<97,98,99>>, <<98>>, <<99>>,
                 <<105,116,39,115>>, <<120>>, <<120,121>>, <<120,97,121>>, <<120,95,121>>, <<120,46,121>>, <<120,122,121>>, <<97,120>>, <<121,120>>,
-                <<97,95,98>>, <<97,88,98>>, <<97,88,98,99>>, <<49>>, <<49,48>>, <<57>>, <<42>>, <<120,121,122,121>> >>
+                <<97,95,98>>, <<97,88,98>>, <<97,88,98,99>>, <<49>>, <<49,48>>, <<57>>, <<42>>, <<120,121,122,121>>,
+                <<120,92>>, <<120,92,97>>, <<120,92,92>>, <<120,42>>, <<97,42,98>>, <<97,42,98,99>>, <<97,37,98>>, <<97,37,98,99>>, <<97,120,98>> >>
 ProbeVals(ty) == IF ty = "str" THEN [i \in DOMAIN StrProbes |-> [ty |-> "str", n |-> 0, codes |-> StrProbes[i]]]
                  ELSE [i \in DOMAIN NumProbes |-> [ty |-> "num", n |-> NumProbes[i], codes |-> <<>>]]
 \* what the parameter list must carry for a value: same kind, wildcard patterns translated (* -> %, ? -> _)
-Translate(codes) == [i \in DOMAIN codes |-> IF codes[i] = 42 THEN 37 ELSE IF codes[i] = 63 THEN 95 ELSE codes[i]]
+\* (an escaped wildcard - backslash 92 before it - is a literal character and stays as written)
+RECURSIVE Translate(_)
+Translate(c) == IF c = <<>> THEN <<>>
+                ELSE IF c[1] = 92 /\ Len(c) >= 2 THEN <<c[1], c[2]>> \o Translate(SubSeq(c, 3, Len(c)))
+                ELSE <<IF c[1] = 42 THEN 37 ELSE IF c[1] = 63 THEN 95 ELSE c[1]>> \o Translate(Tail(c))
 ParamOf(v) == IF v.ty = "pat" THEN [v EXCEPT !.ty = "str", !.codes = Translate(v.codes)] ELSE v
 
 OpSym(op) == CASE op = "=" -> ":" [] op = ">" -> ":>" [] op = ">=" -> ":>=" [] op = "<" -> ":<" [] op = "<=" -> ":<="
